@@ -309,6 +309,9 @@ def harness(name, kind):
         elif name == "H5":
             bodies = [lambda: _bits(m.rate(g0, limit_sigma=True)), lambda: _bits(m.rate(g1, tau=0)),
                       lambda: _bits(m.predict_rank(g2))]
+        elif name == "H7":  # predictors against predictors (scratch data of the pairwise loops)
+            bodies = [lambda: [_bits(m.predict_win(g2)), _bits(m.predict_rank(g2))],
+                      lambda: [_bits(m.predict_win(g3)), _bits(m.predict_draw(g3)), _bits(m.predict_rank(g3))]]
         elif name == "H6":  # same-shaped concurrent updates with opposite outcomes + per-call tau on both
             bodies = [lambda: _bits(m.rate(g0, ranks=[0, 1], tau=0.25 * b)), lambda: _bits(m.rate(g1, ranks=[1, 0], tau=b))]
         else:
@@ -318,7 +321,7 @@ def harness(name, kind):
     return mk
 
 
-HARNESSES = ["H1", "H2", "H3", "H4", "H5", "H6"]
+HARNESSES = ["H1", "H2", "H3", "H4", "H5", "H6", "H7"]
 
 
 def solo(mk):
@@ -383,7 +386,10 @@ def baseline(mk, gran, k):
     return ex
 
 
-def explore(mk, gran, bound, shard=(0, 1), max_exec=None):
+def explore(mk, gran, bound, shard=(0, 1), max_exec=None, end_choices="all"):
+    """end_choices: "all" = at every thread end every live thread may continue (free choice, explored in combination with the
+    preemptions); "serial" = free thread-end choices are explored only in executions without preemption (all serial orders),
+    preempted executions continue with the lowest live thread (used by the quick tier for the 3-thread harness)."""
     """Iterative preemption bounding.  Returns dict(executions per bound, points, outcomes, violations)."""
     m, bodies = mk()
     k = len(bodies)
@@ -422,6 +428,8 @@ def explore(mk, gran, bound, shard=(0, 1), max_exec=None):
                 else:
                     ncost = cost  # thread end: choosing who continues is free
                     default = min(j for j in range(k) if (alive >> j) & 1) if alive else None
+                    if end_choices == "serial" and cost > 0:
+                        continue
                 if ncost > bound or default is None:
                     continue
                 for u in range(k):
